@@ -90,7 +90,7 @@ def coq_case(c):
         keys = coq_list([coq_nat(int(k)) for k in rq.get('json_body', {})]) if rq['json'] else '[]'
         crq = f'(Some ({coq_bool(rq["json"])}, {keys}))'
     args = ([[5, 0, 0]] if c['sig']['method'] else []) + c['args']
-    return (f'eval_case {ps} {sps} {coq_bool(c["sig"]["varkw"])} {c["mode"]} {coq_bool(c["strict"])} {coq_bool(c["ignore"])} '
+    return (f'eval_case {ps} {sps} {coq_bool(c["sig"]["varkw"])} {coq_bool(c["sig"].get("varpos", False))} {c["mode"]} {coq_bool(c["strict"])} {coq_bool(c["ignore"])} '
             f'{coq_bool(c["async"])} {crq} {coq_list([cval(v) for v in args])} '
             f'{coq_list([f"({coq_nat(n)}, {cval(v)})" for n, v in c["kwargs"]])}')
 
@@ -116,6 +116,9 @@ class Rd:
     def journal(self):
         return [[self.get(), self.get(), self.val()] for _ in range(self.get())]
 
+    def star(self):
+        return [self.val() for _ in range(self.get())]
+
 
 def parse_model(xs):
     r = Rd(xs)
@@ -123,6 +126,8 @@ def parse_model(xs):
     k = r.get()
     if k == 0:
         out['final'] = ['body', r.dict()]
+    elif k == 3:
+        out['final'] = ['body', r.dict(), r.star()]
     elif k == 1:
         pn = r.get()
         out['final'] = ['raise', r.path(), pn]
@@ -133,6 +138,8 @@ def parse_model(xs):
     k = r.get()
     if k == 0:
         out['demand'] = ['body', r.dict()]
+    elif k == 3:
+        out['demand'] = ['body', r.dict(), r.star()]
     elif k == 1:
         rs = []
         for _ in range(r.get()):
@@ -150,7 +157,7 @@ def parse_model(xs):
 def impl_final(i):
     f = i['final']
     if f[0] == 'body':
-        return ['body', i.get('binding')]
+        return ['body', i.get('binding')] + ([i['star']] if 'star' in i else [])
     if f[0] == 'raise':
         return ['raise', f[1], f[2]]
     return ['nocall']
@@ -179,7 +186,7 @@ def judge(c, i, m):
         what.append('the wrapper did not return the object the body returned')
     d = m['demand']
     ran = i['calls'] >= 1
-    if m['domain'] == 2:
+    if m['domain'] in (2, 3):                        # 3: function with *args in its principal use (Spec: spec_star_outcome)
         if d[0] == 'raise':
             if ran:
                 what.append(f'the body ran with {i.get("binding")} although the statement demands one of the exceptions {d[1]} '
@@ -199,12 +206,12 @@ def judge(c, i, m):
             if fin[0] != 'body':
                 what.append(f'outcome {fin} ({i.get("exc")}) although every argument is acceptable; the body has to see {d[1]}')
                 kind = 'valid-call-refused'
-            elif fin[1] != d[1]:
-                what.append(f'the body saw {fin[1]}, the statement demands {d[1]}')
+            elif fin[1:] != d[1:]:
+                what.append(f'the body saw {fin[1:]}, the statement demands {d[1:]} (named binding' + (', then the *args tuple)' if len(d) > 2 else ')'))
                 kind = 'wrong-binding'
         # validator inputs: in chain order, each fed with its predecessor's output
         gi, gs = by_name(i['journal']), by_name(m['spec_journal'])
-        for n in set(gi) | set(gs):
+        for n in (set(gi) | set(gs) if m['domain'] == 2 else ()):
             a, b = gi.get(n, []), gs.get(n, [])
             if a != b and not (fin[0] == 'raise' and a == []):
                 what.append(f'validators of parameter {n} were fed with {a} (index, value), demanded {b}')
@@ -237,6 +244,13 @@ def judge(c, i, m):
 PENDING_FINDINGS = []
 
 
+def py_eq(a, b):
+    """Python's == on encoded values (ints and bools numerically, everything else by identity of the encoding)"""
+    if a[0] in (1, 2) and b[0] in (1, 2):
+        return a[1] == b[1]
+    return a[:3] == b[:3]
+
+
 def finding_matcher(f, case):
     """narrow syntactic predicates on the (single) case"""
     if 'calls' in case:
@@ -252,6 +266,16 @@ def finding_matcher(f, case):
     if mid == 'without_none_name_outside_signature':
         # K2: KWARGS_WITHOUT_NONE, function without **kwargs, a name outside the signature reaches the call
         return case['mode'] == 2 and not case['sig']['varkw'] and bool(outside)
+    if mid in ('varargs_surplus_positional', 'varargs_value_equal_to_named'):
+        if not case['sig'].get('varpos'):
+            return False
+        npos = len([sp for sp in named(case['sig']) if not sp['kwonly']])
+        head, extras = case['args'][:npos], case['args'][npos:]
+        if mid == 'varargs_surplus_positional':
+            # K4: more positionals for *args than Parameters whose names are no parameters of the function
+            return len(extras) > len([p for p in case['params'] if p['n'] not in signames])
+        # K5: a positional for *args equals (Python ==) the value of a named positional
+        return any(py_eq(a, u) for a in extras for u in head)
     if mid == 'self_name_not_implicit_first_positional':
         # K3 = the complement of self_guard: self by keyword, a Parameter named self, or a parameter self that is not the first
         return (any(n == 0 for n, _ in case['kwargs']) or any(p['n'] == 0 for p in case['params'])
@@ -261,6 +285,7 @@ def finding_matcher(f, case):
 
 # --------------------------------------------------------------------------- generators
 INT_POOL = [-3, -1, 0, 1, 2, 3, 5, 8, 12]
+VARPOS_P = 0.0          # share of random signatures with *args; set by the C12 driver (the text of C13 excludes them)
 # names of signature parameters: p1..p6 and names spelled like variables of the implementation (w_validate.SPECIAL_NAMES:
 # 10 args, 11 kwargs, 12 cls, 13 result, 14 func, 15 parameters, 16 k, 17 value, 18 signature); 0 = self, 7..9 = names outside
 NAME_POOL = [1, 2, 3, 4, 5, 6, 10, 10, 11, 12, 13, 14, 15, 16, 17, 18]
@@ -339,7 +364,7 @@ def boundary_chain(rng, maxlen):
     return chain, [1, k - pos + rng.choice([0, 1]), 0]
 
 
-def gen_sig(rng, n, method, kwonly_p=0.3, varkw_p=0.08):
+def gen_sig(rng, n, method, kwonly_p=0.3, varkw_p=0.08, varpos_p=0.0):
     names = pick_names(rng, n)
     n_kw = min(n, rng.choice([1, 1, 2])) if rng.random() < kwonly_p else 0
     n_pos = n - n_kw
@@ -350,7 +375,10 @@ def gen_sig(rng, n, method, kwonly_p=0.3, varkw_p=0.08):
         ps.append({'n': nm, 'kwonly': False, 'default': gen_val(rng) if i >= n_pos - n_def else None})
     for nm in names[n_pos:]:
         ps.append({'n': nm, 'kwonly': True, 'default': gen_val(rng) if rng.random() < 0.5 else None})
-    return {'params': ps, 'varkw': rng.random() < varkw_p, 'method': method}
+    sig = {'params': ps, 'varkw': rng.random() < varkw_p, 'method': method}
+    if rng.random() < varpos_p and 10 not in names:        # a *args parameter (spelled args)
+        sig['varpos'] = True
+    return sig
 
 
 def gen_param(rng, n, maxchain, kinds=('plain', 'plain', 'plain', 'hext', 'hext', 'env'), benign=False):
@@ -441,7 +469,7 @@ def base_case(sig, params, mode, strict, ignore, is_async, args, kwargs, request
 
 def gen_random_case(rng, maxchain, maxn=4, tag='valid'):
     method = rng.random() < 0.3
-    sig = gen_sig(rng, rng.randint(1, maxn), method)
+    sig = gen_sig(rng, rng.randint(1, maxn), method, varpos_p=VARPOS_P)
     strict = rng.random() < 0.6
     params = gen_decl(rng, sig, strict, maxchain, benign=rng.random() < 0.35)
     if rng.random() < 0.25 and params:                        # first rejection at a chosen chain position
@@ -583,6 +611,32 @@ def gen_request(rng, sig):
     return rq
 
 
+
+
+# --------------------------------------------------------------------------- functions with *args
+def gen_varargs_case(rng, maxchain):
+    """def f(p..., *args): the Parameters of the named parameters first and in signature order, then Parameters whose names
+    are no parameters of the function (they stand for the positions of *args); ARGS mode, purely positional calls with about as
+    many surplus positionals as such Parameters (one less / one more), values sometimes equal to a named one"""
+    pool = [n for n in sorted(set(NAME_POOL)) if n != 10]
+    names = rng.sample(pool, rng.choice([0, 1, 1, 2]))
+    rest = [n for n in pool if n not in names]
+    stars = rng.sample(rest, rng.choice([0, 1, 2, 2, 3]))
+    sps = [{'n': n, 'kwonly': False, 'default': None} for n in names]
+    if names and rng.random() < 0.3:
+        sps[-1]['default'] = [1, rng.choice(INT_POOL), 0]
+    sig = {'params': sps, 'varkw': rng.random() < 0.1, 'method': False, 'varpos': True}
+    benign = rng.random() < 0.7
+    params = [gen_param(rng, n, maxchain, kinds=('plain', 'plain', 'hext'), benign=benign) for n in names + stars]
+    for p in params[len(names):]:
+        if rng.random() < 0.3:
+            p['required'], p['default'] = False, [1, rng.choice(INT_POOL), 0]
+    n_extra = max(0, len(stars) + rng.choice([-1, 0, 0, 0, 1]))
+    n_args = len(names) + n_extra if rng.random() < 0.85 or not names else rng.randrange(len(names) + 1)
+    args = [rng.choice([[1, rng.choice([0, 1, 2, 3, 4]), 0], [1, rng.choice([0, 1, 2, 3, 4]), 0], [2, rng.randrange(2), 0], gen_val(rng)])
+            for _ in range(n_args)]
+    return base_case(sig, params, 0 if rng.random() < 0.85 else rng.randrange(3), rng.random() < 0.6, False, rng.random() < 0.2, args, [],
+                     tag='varargs')
 
 # --------------------------------------------------------------------------- shared Parameter objects, calls in sequence
 def gen_shared(rng, maxchain):
